@@ -14,8 +14,8 @@
    gives for it ([sch_ok]) -- the decoded values have the Go types of the
    struct's fields, so no Set panics. *)
 From JV Require Import Model.Base Model.GoTime Gen.TypeGo Model.Schema Model.Value
-  Model.Json Model.Resource Model.Unmarshal Model.Document
-  Proofs.C13Facts Proofs.C05Facts Proofs.C01Wrapped Proofs.C05Mixed.
+  Model.Json Model.Resource Model.Unmarshal Model.Document Model.Url Model.Request
+  Proofs.C13Facts Proofs.C05Facts Proofs.C01Wrapped Proofs.C05Mixed Proofs.C05Request.
 
 Theorem C05_total_refuted : forall e,
   unmarshal_resource e c05_schema
@@ -63,6 +63,25 @@ Theorem C05_document_mixed : forall e s j,
   sch_ok s -> no_bytes_schema s -> unmarshal_document e s j <> Panic.
 Proof. exact unmarshal_document_no_panic_mixed. Qed.
 Print Assumptions C05_document_mixed.
+
+(* building a request from an HTTP request carrying the body (NewRequest =
+   NewSimpleURL + NewURL on the request's URL, then UnmarshalDocument for POST
+   and PATCH; [body = None]: the bytes are not JSON): never a panic under the
+   same guard, for every method, URL and body; and what a returned request
+   holds *)
+Theorem C05_request_mixed : forall e s method path values fo body,
+  sch_ok s -> no_bytes_schema s -> new_request e s method path values fo body <> Panic.
+Proof. exact new_request_no_panic_mixed. Qed.
+Print Assumptions C05_request_mixed.
+
+Theorem C05_request_parts : forall e s method path values fo body r,
+  new_request e s method path values fo body = Ok r ->
+  new_url_from (sch_schema s) path values fo = Ok (rq_url r) /\ rq_method r = method /\
+  (if String.eqb method "POST" || String.eqb method "PATCH"
+   then exists j d, body = Some j /\ unmarshal_document e s j = Ok d /\ rq_doc r = Some d
+   else rq_doc r = None).
+Proof. exact new_request_parts. Qed.
+Print Assumptions C05_request_parts.
 
 (* the guard is satisfiable: the schema holding the example struct of C01 *)
 Example c05_mixed_guard_example : sch_ok exw_sch /\ no_bytes_schema exw_sch.
